@@ -121,6 +121,7 @@ import (
 //@ func arePropertiesEmpty
 //@   loop 0 invariant forall(j, int, 0 <= j && j <= rangeindex ==> seq(properties)[j] == 0)
 //@   ensures r == forall(j, int, 0 <= j && j < len(properties) ==> seq(properties)[j] == 0)
+//@   ensures r == pempty(seq(properties))
 //@   ensures len(properties) == 2 ==> r == (seq(properties)[0] == 0 && seq(properties)[1] == 0)
 //@   ensures len(properties) == 0 ==> r
 
@@ -830,6 +831,45 @@ func lemmaActivationFollowsLastEpoch(b *baseEnabled, e1, e2 uint32, t1, t2 uint6
 //@   requires b != nil && !isNil(b.builtInFunctions)
 //@   ensures[C16] !(completeBase(gasSchedule["BaseOperationCost"]) && completeBuiltIn(gasSchedule["BuiltInCost"])) ==> unchangedAll()
 //@   modifies b.gasConfig, heap(H|builtInFunctions.changeOwnerAddress|.gasCost), heap(H|builtInFunctions.claimDeveloperRewards|.gasCost), heap(H|builtInFunctions.saveUserName|.gasCost), heap(H|builtInFunctions.saveKeyValueStorage|.funcGasCost), heap(H|builtInFunctions.saveKeyValueStorage|.gasConfig.StorePerByte), heap(H|builtInFunctions.saveKeyValueStorage|.gasConfig.ReleasePerByte), heap(H|builtInFunctions.saveKeyValueStorage|.gasConfig.DataCopyPerByte), heap(H|builtInFunctions.saveKeyValueStorage|.gasConfig.PersistPerByte), heap(H|builtInFunctions.saveKeyValueStorage|.gasConfig.CompilePerByte), heap(H|builtInFunctions.saveKeyValueStorage|.gasConfig.AoTPreparePerByte), heap(H|builtInFunctions.esdtTransfer|.funcGasCost), heap(H|builtInFunctions.esdtBurn|.funcGasCost), heap(H|builtInFunctions.esdtLocalMint|.funcGasCost), heap(H|builtInFunctions.esdtLocalBurn|.funcGasCost), heap(H|builtInFunctions.esdtNFTCreate|.funcGasCost), heap(H|builtInFunctions.esdtNFTCreate|.gasConfig.StorePerByte), heap(H|builtInFunctions.esdtNFTCreate|.gasConfig.ReleasePerByte), heap(H|builtInFunctions.esdtNFTCreate|.gasConfig.DataCopyPerByte), heap(H|builtInFunctions.esdtNFTCreate|.gasConfig.PersistPerByte), heap(H|builtInFunctions.esdtNFTCreate|.gasConfig.CompilePerByte), heap(H|builtInFunctions.esdtNFTCreate|.gasConfig.AoTPreparePerByte), heap(H|builtInFunctions.esdtNFTAddQuantity|.funcGasCost), heap(H|builtInFunctions.esdtNFTBurn|.funcGasCost), heap(H|builtInFunctions.esdtNFTTransfer|.funcGasCost), heap(H|builtInFunctions.esdtNFTTransfer|.gasConfig.StorePerByte), heap(H|builtInFunctions.esdtNFTTransfer|.gasConfig.ReleasePerByte), heap(H|builtInFunctions.esdtNFTTransfer|.gasConfig.DataCopyPerByte), heap(H|builtInFunctions.esdtNFTTransfer|.gasConfig.PersistPerByte), heap(H|builtInFunctions.esdtNFTTransfer|.gasConfig.CompilePerByte), heap(H|builtInFunctions.esdtNFTTransfer|.gasConfig.AoTPreparePerByte), heap(H|builtInFunctions.esdtNFTMultiTransfer|.funcGasCost), heap(H|builtInFunctions.esdtNFTMultiTransfer|.gasConfig.StorePerByte), heap(H|builtInFunctions.esdtNFTMultiTransfer|.gasConfig.ReleasePerByte), heap(H|builtInFunctions.esdtNFTMultiTransfer|.gasConfig.DataCopyPerByte), heap(H|builtInFunctions.esdtNFTMultiTransfer|.gasConfig.PersistPerByte), heap(H|builtInFunctions.esdtNFTMultiTransfer|.gasConfig.CompilePerByte), heap(H|builtInFunctions.esdtNFTMultiTransfer|.gasConfig.AoTPreparePerByte), heap(H|builtInFunctions.esdtNFTAddUri|.funcGasCost), heap(H|builtInFunctions.esdtNFTAddUri|.gasConfig.StorePerByte), heap(H|builtInFunctions.esdtNFTAddUri|.gasConfig.ReleasePerByte), heap(H|builtInFunctions.esdtNFTAddUri|.gasConfig.DataCopyPerByte), heap(H|builtInFunctions.esdtNFTAddUri|.gasConfig.PersistPerByte), heap(H|builtInFunctions.esdtNFTAddUri|.gasConfig.CompilePerByte), heap(H|builtInFunctions.esdtNFTAddUri|.gasConfig.AoTPreparePerByte), heap(H|builtInFunctions.esdtNFTupdate|.funcGasCost), heap(H|builtInFunctions.esdtNFTupdate|.gasConfig.StorePerByte), heap(H|builtInFunctions.esdtNFTupdate|.gasConfig.ReleasePerByte), heap(H|builtInFunctions.esdtNFTupdate|.gasConfig.DataCopyPerByte), heap(H|builtInFunctions.esdtNFTupdate|.gasConfig.PersistPerByte), heap(H|builtInFunctions.esdtNFTupdate|.gasConfig.CompilePerByte), heap(H|builtInFunctions.esdtNFTupdate|.gasConfig.AoTPreparePerByte)
+
+// ---- the factory (C18 registry clause, C16 at construction): the container holds exactly the 23 protocol
+// names, each bound to the implementation of that name configured from the factory arguments and priced by
+// its own entry of the schedule. The container itself is seen through its interface (ghost registry, assumed).
+
+//@ func NewBuiltInFunctionsFactory
+//@   results f, err
+//@   ensures[C18] err == nil ==> f != nil && fresh(f) && f.enableUserNameChange == args.EnableUserNameChange && f.mapDNSAddresses == args.MapDNSAddresses && f.marshalizer == args.Marshalizer && f.accounts == args.Accounts && f.shardCoordinator == args.ShardCoordinator && f.epochNotifier == args.EpochNotifier && f.esdtNFTImprovementV1ActivationEpoch == args.ESDTNFTImprovementV1ActivationEpoch && f.gasConfig != nil
+//@   ensures[C18] err == nil ==> !isNil(args.Marshalizer) && !isNil(args.Accounts) && args.MapDNSAddresses != nil && !isNil(args.ShardCoordinator) && !isNil(args.EpochNotifier)
+//@   modifies RegHas, RegTyp, RegVal, new(builtInFunctions.functionContainer), new(builtInFuncFactory), new(vmcommon.GasCost)
+
+//@ func (b *builtInFuncFactory) CreateBuiltInFunctionContainer
+//@   results c, err
+//@   requires b != nil && b.gasConfig != nil
+//@   ensures[C18] err == nil ==> !isNil(c) && forall(k, bseq, RegHas[payload(c)][k] == (k == "ClaimDeveloperRewards" || k == "ChangeOwnerAddress" || k == "SetUserName" || k == "SaveKeyValue" || k == "ESDTPause" || k == "ESDTUnPause" || k == "ESDTTransfer" || k == "ESDTBurn" || k == "ESDTFreeze" || k == "ESDTUnFreeze" || k == "ESDTWipe" || k == "ESDTUnSetRole" || k == "ESDTSetRole" || k == "ESDTLocalBurn" || k == "ESDTLocalMint" || k == "ESDTNFTAddQuantity" || k == "ESDTNFTBurn" || k == "ESDTNFTCreate" || k == "ESDTNFTTransfer" || k == "ESDTNFTCreateRoleTransfer" || k == "ESDTNFTUpdateAttributes" || k == "ESDTNFTAddURI" || k == "MultiESDTNFTTransfer"))
+//@   ensures[C18,C16] err == nil ==> RegTyp[payload(c)]["ClaimDeveloperRewards"] == typeid("*builtInFunctions.claimDeveloperRewards") && ptr(RegVal[payload(c)]["ClaimDeveloperRewards"], "*builtInFunctions.claimDeveloperRewards").gasCost == b.gasConfig.BuiltInCost.ClaimDeveloperRewards
+//@   ensures[C18,C16] err == nil ==> RegTyp[payload(c)]["ChangeOwnerAddress"] == typeid("*builtInFunctions.changeOwnerAddress") && ptr(RegVal[payload(c)]["ChangeOwnerAddress"], "*builtInFunctions.changeOwnerAddress").gasCost == b.gasConfig.BuiltInCost.ChangeOwnerAddress
+//@   ensures[C18,C16] err == nil ==> RegTyp[payload(c)]["SetUserName"] == typeid("*builtInFunctions.saveUserName") && ptr(RegVal[payload(c)]["SetUserName"], "*builtInFunctions.saveUserName").gasCost == b.gasConfig.BuiltInCost.SaveUserName && ptr(RegVal[payload(c)]["SetUserName"], "*builtInFunctions.saveUserName").enableChange == b.enableUserNameChange
+//@   ensures[C18,C16] err == nil ==> RegTyp[payload(c)]["SaveKeyValue"] == typeid("*builtInFunctions.saveKeyValueStorage") && ptr(RegVal[payload(c)]["SaveKeyValue"], "*builtInFunctions.saveKeyValueStorage").funcGasCost == b.gasConfig.BuiltInCost.SaveKeyValue && ptr(RegVal[payload(c)]["SaveKeyValue"], "*builtInFunctions.saveKeyValueStorage").gasConfig.PersistPerByte == b.gasConfig.BaseOperationCost.PersistPerByte
+//@   ensures[C18,C16] err == nil ==> RegTyp[payload(c)]["ESDTPause"] == typeid("*builtInFunctions.esdtPause") && ptr(RegVal[payload(c)]["ESDTPause"], "*builtInFunctions.esdtPause").pause
+//@   ensures[C18,C16] err == nil ==> RegTyp[payload(c)]["ESDTUnPause"] == typeid("*builtInFunctions.esdtPause") && !ptr(RegVal[payload(c)]["ESDTUnPause"], "*builtInFunctions.esdtPause").pause
+//@   ensures[C18,C16] err == nil ==> RegTyp[payload(c)]["ESDTTransfer"] == typeid("*builtInFunctions.esdtTransfer") && ptr(RegVal[payload(c)]["ESDTTransfer"], "*builtInFunctions.esdtTransfer").funcGasCost == b.gasConfig.BuiltInCost.ESDTTransfer
+//@   ensures[C18,C16] err == nil ==> RegTyp[payload(c)]["ESDTBurn"] == typeid("*builtInFunctions.esdtBurn") && ptr(RegVal[payload(c)]["ESDTBurn"], "*builtInFunctions.esdtBurn").funcGasCost == b.gasConfig.BuiltInCost.ESDTBurn
+//@   ensures[C18,C16] err == nil ==> RegTyp[payload(c)]["ESDTFreeze"] == typeid("*builtInFunctions.esdtFreezeWipe") && ptr(RegVal[payload(c)]["ESDTFreeze"], "*builtInFunctions.esdtFreezeWipe").freeze && !ptr(RegVal[payload(c)]["ESDTFreeze"], "*builtInFunctions.esdtFreezeWipe").wipe
+//@   ensures[C18,C16] err == nil ==> RegTyp[payload(c)]["ESDTUnFreeze"] == typeid("*builtInFunctions.esdtFreezeWipe") && !ptr(RegVal[payload(c)]["ESDTUnFreeze"], "*builtInFunctions.esdtFreezeWipe").freeze && !ptr(RegVal[payload(c)]["ESDTUnFreeze"], "*builtInFunctions.esdtFreezeWipe").wipe
+//@   ensures[C18,C16] err == nil ==> RegTyp[payload(c)]["ESDTWipe"] == typeid("*builtInFunctions.esdtFreezeWipe") && !ptr(RegVal[payload(c)]["ESDTWipe"], "*builtInFunctions.esdtFreezeWipe").freeze && ptr(RegVal[payload(c)]["ESDTWipe"], "*builtInFunctions.esdtFreezeWipe").wipe
+//@   ensures[C18,C16] err == nil ==> RegTyp[payload(c)]["ESDTUnSetRole"] == typeid("*builtInFunctions.esdtRoles") && !ptr(RegVal[payload(c)]["ESDTUnSetRole"], "*builtInFunctions.esdtRoles").set
+//@   ensures[C18,C16] err == nil ==> RegTyp[payload(c)]["ESDTSetRole"] == typeid("*builtInFunctions.esdtRoles") && ptr(RegVal[payload(c)]["ESDTSetRole"], "*builtInFunctions.esdtRoles").set
+//@   ensures[C18,C16] err == nil ==> RegTyp[payload(c)]["ESDTLocalBurn"] == typeid("*builtInFunctions.esdtLocalBurn") && ptr(RegVal[payload(c)]["ESDTLocalBurn"], "*builtInFunctions.esdtLocalBurn").funcGasCost == b.gasConfig.BuiltInCost.ESDTLocalBurn
+//@   ensures[C18,C16] err == nil ==> RegTyp[payload(c)]["ESDTLocalMint"] == typeid("*builtInFunctions.esdtLocalMint") && ptr(RegVal[payload(c)]["ESDTLocalMint"], "*builtInFunctions.esdtLocalMint").funcGasCost == b.gasConfig.BuiltInCost.ESDTLocalMint
+//@   ensures[C18,C16] err == nil ==> RegTyp[payload(c)]["ESDTNFTAddQuantity"] == typeid("*builtInFunctions.esdtNFTAddQuantity") && ptr(RegVal[payload(c)]["ESDTNFTAddQuantity"], "*builtInFunctions.esdtNFTAddQuantity").funcGasCost == b.gasConfig.BuiltInCost.ESDTNFTAddQuantity
+//@   ensures[C18,C16] err == nil ==> RegTyp[payload(c)]["ESDTNFTBurn"] == typeid("*builtInFunctions.esdtNFTBurn") && ptr(RegVal[payload(c)]["ESDTNFTBurn"], "*builtInFunctions.esdtNFTBurn").funcGasCost == b.gasConfig.BuiltInCost.ESDTNFTBurn
+//@   ensures[C18,C16] err == nil ==> RegTyp[payload(c)]["ESDTNFTCreate"] == typeid("*builtInFunctions.esdtNFTCreate") && ptr(RegVal[payload(c)]["ESDTNFTCreate"], "*builtInFunctions.esdtNFTCreate").funcGasCost == b.gasConfig.BuiltInCost.ESDTNFTCreate && ptr(RegVal[payload(c)]["ESDTNFTCreate"], "*builtInFunctions.esdtNFTCreate").gasConfig.StorePerByte == b.gasConfig.BaseOperationCost.StorePerByte
+//@   ensures[C18,C16] err == nil ==> RegTyp[payload(c)]["ESDTNFTTransfer"] == typeid("*builtInFunctions.esdtNFTTransfer") && ptr(RegVal[payload(c)]["ESDTNFTTransfer"], "*builtInFunctions.esdtNFTTransfer").funcGasCost == b.gasConfig.BuiltInCost.ESDTNFTTransfer && ptr(RegVal[payload(c)]["ESDTNFTTransfer"], "*builtInFunctions.esdtNFTTransfer").gasConfig.DataCopyPerByte == b.gasConfig.BaseOperationCost.DataCopyPerByte
+//@   ensures[C18,C16] err == nil ==> RegTyp[payload(c)]["ESDTNFTCreateRoleTransfer"] == typeid("*builtInFunctions.esdtNFTCreateRoleTransfer")
+//@   ensures[C18,C16] err == nil ==> RegTyp[payload(c)]["ESDTNFTUpdateAttributes"] == typeid("*builtInFunctions.esdtNFTupdate") && ptr(RegVal[payload(c)]["ESDTNFTUpdateAttributes"], "*builtInFunctions.esdtNFTupdate").funcGasCost == b.gasConfig.BuiltInCost.ESDTNFTUpdateAttributes && ptr(RegVal[payload(c)]["ESDTNFTUpdateAttributes"], "*builtInFunctions.esdtNFTupdate").gasConfig.StorePerByte == b.gasConfig.BaseOperationCost.StorePerByte && ptr(RegVal[payload(c)]["ESDTNFTUpdateAttributes"], "*builtInFunctions.esdtNFTupdate").baseEnabled.activationEpoch == b.esdtNFTImprovementV1ActivationEpoch
+//@   ensures[C18,C16] err == nil ==> RegTyp[payload(c)]["ESDTNFTAddURI"] == typeid("*builtInFunctions.esdtNFTAddUri") && ptr(RegVal[payload(c)]["ESDTNFTAddURI"], "*builtInFunctions.esdtNFTAddUri").funcGasCost == b.gasConfig.BuiltInCost.ESDTNFTAddURI && ptr(RegVal[payload(c)]["ESDTNFTAddURI"], "*builtInFunctions.esdtNFTAddUri").gasConfig.StorePerByte == b.gasConfig.BaseOperationCost.StorePerByte && ptr(RegVal[payload(c)]["ESDTNFTAddURI"], "*builtInFunctions.esdtNFTAddUri").baseEnabled.activationEpoch == b.esdtNFTImprovementV1ActivationEpoch
+//@   ensures[C18,C16] err == nil ==> RegTyp[payload(c)]["MultiESDTNFTTransfer"] == typeid("*builtInFunctions.esdtNFTMultiTransfer") && ptr(RegVal[payload(c)]["MultiESDTNFTTransfer"], "*builtInFunctions.esdtNFTMultiTransfer").funcGasCost == b.gasConfig.BuiltInCost.ESDTNFTMultiTransfer && ptr(RegVal[payload(c)]["MultiESDTNFTTransfer"], "*builtInFunctions.esdtNFTMultiTransfer").gasConfig.DataCopyPerByte == b.gasConfig.BaseOperationCost.DataCopyPerByte && ptr(RegVal[payload(c)]["MultiESDTNFTTransfer"], "*builtInFunctions.esdtNFTMultiTransfer").baseEnabled.activationEpoch == b.esdtNFTImprovementV1ActivationEpoch
+//@   modifies RegHas, RegTyp, RegVal, b.builtInFunctions, new(builtInFunctions.functionContainer)
 
 // lemmaEmittedMessageParses (C10-i, C12): every data string the message encoder emits for a function
 // name without '@' parses, with the real call-arguments parser, into exactly that name and arguments
